@@ -7,3 +7,9 @@ import PysamlModel.Props.C13
 #print axioms C13.C13_order_partial
 #print axioms C13.C13_order_table
 #print axioms C13.C13_order_table_valid
+#print axioms C13.C13_dup_id_rejected
+#print axioms C13.C13_distinct_id_accepted
+#print axioms C13.C13_action_without_namespace_rejected
+#print axioms C13.C13_action_with_namespace_accepted
+#print axioms C13.C13_counterexample_dup_id
+#print axioms C13.C13_counterexample_action_namespace
